@@ -68,6 +68,8 @@ func VerifC03GrpcTx() {
 	if err != nil {
 		if archived == 0 {
 			verifAssert(strings.Contains(err.Error(), "code = NotFound"), "C03.grpctx: signature that is not archived is not answered with NotFound")
+		} else if !verifC03AnyCollision(eps) {
+			verifAssert(false, "C03.grpctx: archived signature answered with an error although no index lookup hit a foreign entry")
 		}
 	} else {
 		verifAssert(resp != nil && resp.Transaction != nil, "C03.grpctx: nil response without error")
